@@ -19,6 +19,7 @@ import (
 	"fmt"
 	"net/http"
 	"net/url"
+	"strings"
 
 	"github.com/gobeam/stringy"
 	"k8s.io/apimachinery/pkg/api/errors"
@@ -129,6 +130,12 @@ func (d *dispatcher) ServeHTTP(w http.ResponseWriter, req *http.Request) {
 	// keep the client's escaping (e.g. %2F inside a path segment); without it
 	// an escaped slash is forwarded as a path separator
 	location.RawPath = req.URL.RawPath
+	if location.RawPath != "" && location.EscapedPath() != location.RawPath {
+		// net/url ignores a RawPath containing a byte it would escape itself
+		// (e.g. '"', '<', '#', bytes >= 0x80) and re-encodes the decoded Path,
+		// which again turns %2F into a separator: hand it an encoding it accepts
+		location.RawPath = reencodePathSegments(req.URL.RawPath)
+	}
 	location.RawQuery = req.URL.Query().Encode()
 
 	newReq, cancel := newRequestForProxy(location, req, extraInfo.Hostname)
@@ -174,6 +181,20 @@ func newRequestForProxy(location *url.URL, req *http.Request, _ string) (*http.R
 	newReq.URL = location
 
 	return newReq, cancel
+}
+
+// reencodePathSegments re-encodes every segment of an escaped path (split on
+// literal '/') with url.PathEscape, so that the segment boundaries survive.
+func reencodePathSegments(raw string) string {
+	segments := strings.Split(raw, "/")
+	for i, segment := range segments {
+		decoded, err := url.PathUnescape(segment)
+		if err != nil {
+			return raw
+		}
+		segments[i] = url.PathEscape(decoded)
+	}
+	return strings.Join(segments, "/")
 }
 
 func normalizeErrToReason(err error) string {
